@@ -162,6 +162,21 @@ func snapColsEqual(a, b [][]SnapCol) string {
 	return ""
 }
 
+// snapCells counts the cells of a snapshot (a size measure for optional extra work).
+func snapCells(a *SnapTx) int {
+	n := 0
+	for _, e := range a.Events {
+		for _, r := range e.Values {
+			n += len(r)
+		}
+		for _, r := range e.Identifies {
+			n += len(r)
+		}
+		n += len(e.SQL) / 64
+	}
+	return n
+}
+
 // snapDiff returns "" when two snapshots are identical.
 func snapDiff(a, b *SnapTx) string {
 	if a.Now != b.Now || a.Next != b.Next || a.Timestamp != b.Timestamp {
